@@ -323,7 +323,7 @@ def mark_columnar(cases):
 
 def witness_cases():
     """Refutation witnesses of C01_roundtrip_refuted (and the fixed behaviour they must show after the fix)."""
-    w1 = {"m": b"cpu", "tags": [(b"a=b", b"c")], "fields": [(b"v", ("float", b"1"))], "ts": None}
+    w1 = {"m": b"cpu", "tags": [(b"a=b", b"c")], "fields": [(b"v", ("int", 1))], "ts": None}
     w2 = {"m": b"cpu", "tags": [(b"host", b"a")], "fields": [(b"v=w", ("int", 1))], "ts": 1000}
     return [{"stream": "witness", "points": [p], "em": False, "tnl": False, "prec": "ns", "data": encode_batch([p], False, False)} for p in (w1, w2)]
 
@@ -518,7 +518,7 @@ def run(res, tier, seed):
         "not covered: the HTTP handler (measurement-name regexp, decompression, RBAC) and the Arrow/Parquet encoding after BatchToColumnar",
     ]
 
-    n_valid, n_near, n_mut = (700, 150, 450) if tier == "quick" else (14000, 3000, 9000)
+    n_valid, n_near, n_mut = (480, 110, 320) if tier == "quick" else (12000, 2500, 8000)
     t1 = time.time()
     wit = witness_cases()
     corpus = []
@@ -609,7 +609,8 @@ def run(res, tier, seed):
                        "how_to_replay": "python3 tools/check.py C01 --replay <this file>"})
         reported = True
     if dis:
-        in_domain = [j for j in dis if j in set(orf) and j >= len(wit)]
+        # well-formed points (outside the known class) that the implementation stores wrongly
+        in_domain = [j for j in dis if j in set(orf) and j >= len(wit) and not (variant == "defect" and j in noguard)]
         i = in_domain[0] if in_domain else dis[0]
         c = out[i]
         small = shrink_bytes(c, akey)
